@@ -217,7 +217,9 @@ impl PropertyValue {
                     u32::from_le_bytes(bytes[1..5].try_into().expect("slice length checked"))
                         as usize;
                 let mut pos = 5;
-                let mut items = Vec::with_capacity(count);
+                // `count` is untrusted: every item takes at least one byte, so never
+                // reserve more slots than there are bytes left.
+                let mut items = Vec::with_capacity(count.min(bytes.len() - pos));
                 for _ in 0..count {
                     let (item, consumed) = Self::decode_recursive(&bytes[pos..])?;
                     items.push(item);
